@@ -146,9 +146,11 @@ impl Relation for ZkirRelation {
     fn read_relation<R: io::Read>(reader: &mut R) -> io::Result<Self> {
         // NB: `decode_from_std_read` returns the decoded value only (unlike
         // `decode_from_slice`, it does not return the number of bytes read).
+        // Bound what a (possibly hostile) length prefix can make the decoder
+        // allocate: programs are small.
+        let config = bincode::config::standard().with_limit::<{ 1 << 24 }>();
         let program: Program =
-            bincode::decode_from_std_read(reader, bincode::config::standard())
-                .map_err(io::Error::other)?;
+            bincode::decode_from_std_read(reader, config).map_err(io::Error::other)?;
 
         Self::from_instructions(&program.instructions)
             .map_err(|e| io::Error::other(format!("{e:?}")))
